@@ -1126,6 +1126,7 @@ fn run_ops<const D: usize, const F: usize, const V: usize>(
 
 /// Run one history and append its events.
 pub fn run_history(h: &J, events: &mut Vec<J>, opts: &RunOpts, sink: &mut Sink) -> Stats {
+    crate::set_log(h.get("log").and_then(|x| x.as_bool()).unwrap_or(false));
     let bounds: Vec<usize> = h.get("bounds").and_then(|x| x.as_array()).map(|a| a.iter().map(|x| x.as_u64().unwrap() as usize).collect()).unwrap_or(vec![0, 3, 255, 509]);
     let mut vals = Vals::new(bounds.clone());
     let img = mkfs::build(&h["image"], &mut vals);
